@@ -121,20 +121,35 @@ def sketch_args(cfg):
 _batch_cache = {}
 
 
-def batch_for(ds):
-    b = _batch_cache.get(ds)
+def batch_for(ds, n=2048):
+    """the seeded batch of n uniform draws installed for an event (n = the tree's batch length)"""
+    b = _batch_cache.get((ds, n))
     if b is None:
         if len(_batch_cache) > 512:
             _batch_cache.clear()
-        b = np.random.RandomState(ds & 0xFFFFFFFF).random_sample(2048)
-        _batch_cache[ds] = b
+        b = np.random.RandomState(ds & 0xFFFFFFFF).random_sample(n)
+        _batch_cache[(ds, n)] = b
     return b
+
+
+def map_ptr(sk, ptr):
+    """Events carry the read position on the scale of a 2048-draw batch (0..2048, where
+    2040..2048 mean 'that close to the end'); the tree's own batch length decides the
+    real position."""
+    B = len(sk.rand_nums)
+    ptr = int(ptr)
+    if B == 2048:
+        return ptr
+    if ptr >= 40:
+        # positions are kept relative to the END of the batch (that is where behaviour changes)
+        return max(0, B - (2048 - ptr))
+    return min(ptr, B)
 
 
 def install_draws(sk, ds, ptr):
     """The randomness seam: batch and read position are public attributes."""
-    sk.rand_nums[:] = batch_for(ds)
-    sk.rand_ptr = int(ptr)
+    sk.rand_nums[:] = batch_for(ds, len(sk.rand_nums))
+    sk.rand_ptr = map_ptr(sk, ptr)
 
 
 def tables(sk, fam):
@@ -877,6 +892,8 @@ class World:
             u = p * (1.0 - 1e-6)
         ptr = int(ev.get("ptr", 0)) % 2048
         install_draws(sk, ev.get("ds", 1), ptr)
+        ptr = int(sk.rand_ptr) % len(sk.rand_nums)
+        sk.rand_ptr = ptr
         sk.rand_nums[ptr] = u
         boot.numba_seed(ev.get("ds", 1) + 1)
         nadd0 = int(sk.n_added())
